@@ -1,6 +1,7 @@
 package main
 
 import (
+	"regexp"
 	"context"
 	"sync"
 	"os/exec"
@@ -199,9 +200,13 @@ func cmdCheck(args []string) int {
 	// the budget and a quiet machine, before it counts as failed (solver time varies with load; a refutation does not)
 	{
 		bl := loadBaseline(id)
+		blNorm := map[string]bool{}
+		for n := range bl {
+			blNorm[normName(n)] = true
+		}
 		var again []*job
 		for _, j := range jobs {
-			if !j.obl.Smoke && j.res.Status == "unknown" && bl[j.obl.Name] {
+			if !j.obl.Smoke && j.res.Status == "unknown" && (bl[j.obl.Name] || (contractKind(j.obl.Kind) && blNorm[normName(j.obl.Name)])) {
 				again = append(again, j)
 			}
 		}
@@ -214,6 +219,12 @@ func cmdCheck(args []string) int {
 	}
 
 	baseline := loadBaseline(id)
+	// an edit may renumber blocks, returns and call sites: an obligation generated from a contract clause is recognised by
+	// its clause, whatever the program point it is now checked at
+	baselineNorm := map[string]bool{}
+	for n := range baseline {
+		baselineNorm[normName(n)] = true
+	}
 	known := loadKnown()
 	var reports []oblReport
 	var failed, undecided, discharged []*job
@@ -238,7 +249,7 @@ func cmdCheck(args []string) int {
 		switch {
 		case j.res.Status == "unsat":
 			discharged = append(discharged, j)
-		case baseline[j.obl.Name] || len(baseline) == 0 || j.res.Status == "sat":
+		case baseline[j.obl.Name] || len(baseline) == 0 || j.res.Status == "sat" || (contractKind(j.obl.Kind) && baselineNorm[normName(j.obl.Name)]):
 			res = "FAILED(" + j.res.Status + ")"
 			failed = append(failed, j)
 		default:
@@ -560,4 +571,18 @@ func selfTest(id string) []map[string]interface{} {
 		out = append(out, rec)
 	}
 	return out
+}
+
+var normRe = regexp.MustCompile(`@(b|ret|c)\d+$`)
+
+// normName drops the program point (block, return or call-site ordinal) from an obligation name.
+func normName(n string) string { return normRe.ReplaceAllString(n, "") }
+
+// contractKind: obligations that come from a clause of a contract (as opposed to the safety conditions of single instructions).
+func contractKind(k string) bool {
+	switch k {
+	case "postcondition", "invariant", "precondition", "callsite", "frame", "lemma", "callback", "channel", "escape":
+		return true
+	}
+	return false
 }
